@@ -19,7 +19,10 @@ use messages::{PeerBandwidthLimitType, RtmpMessage, UserControlEventType};
 use rml_amf0::Amf0Value;
 use sessions::StreamMetadata;
 use std::collections::HashMap;
+#[cfg(not(feature = "verif-hooks"))]
 use std::time::SystemTime;
+#[cfg(feature = "verif-hooks")]
+use verif_hooks::SystemTime;
 use time::RtmpTimestamp;
 
 pub use self::config::ServerSessionConfig;
